@@ -1,9 +1,94 @@
+import GradysModel.Queue
 /-
   Faithful port of CPython's `heapq.py` (`heappush`, `heappop`, `_siftdown`, `_siftup`) on arrays,
-  parameterised by the `<` used (`Event.__lt__`).  Used to document finding F03: with the pinned,
-  timestamp-only order equal-time events do not pop FIFO; with the repaired (ts, seq) order they do.
+  generic in the element type and parameterised by the `<` used (`Event.__lt__`).
+
+  * Every comparison of `heapq.py` is made, in the same order and with the same operands (this is
+    what decides the behaviour on ties).
+  * List reads use proof-carrying indexing; a read that would raise `IndexError` in Python takes
+    the fall-through branch that just stores `newitem` (never taken from `heappush`/`heappop`:
+    `GradysProofs/Lemmas/HeapRefine.lean`).  Writes use `setIfInBounds`.
+  * The `while` loops are structural recursions on a fuel argument; the callers pass the array
+    size, which always suffices (`siftdown_fuel_irrelevant`, `siftupLoop_fuel_irrelevant`).
+
+  Used (1) to document finding F03: with the pinned, timestamp-only order equal-time events do not
+  pop FIFO; with the repaired (ts, seq) order they do; (2) by `C03_heapq_refines_sorted_queue`:
+  for the (ts, seq) order the heap-based event loop `HEL` below and the sorted-list loop `EL` of
+  `Queue.lean` are observationally equal.
 -/
 namespace Heap
+
+variable {α : Type}
+
+/-- `_siftdown(heap, startpos, pos)`; `newitem = heap[pos]` is passed explicitly.
+    ```
+    while pos > startpos:
+        parentpos = (pos - 1) >> 1
+        parent = heap[parentpos]
+        if newitem < parent:
+            heap[pos] = parent; pos = parentpos; continue
+        break
+    heap[pos] = newitem
+    ``` -/
+def siftdown (lt : α → α → Bool) (h : Array α) (startpos pos : Nat) (newitem : α) : Nat → Array α
+  | 0 => h.setIfInBounds pos newitem
+  | fuel+1 =>
+    if pos > startpos then
+      let parentpos := (pos - 1) / 2
+      if hp : parentpos < h.size then
+        let parent := h[parentpos]
+        if lt newitem parent then siftdown lt (h.setIfInBounds pos parent) startpos parentpos newitem fuel
+        else h.setIfInBounds pos newitem
+      else h.setIfInBounds pos newitem
+    else h.setIfInBounds pos newitem
+
+/-- `heappush(heap, item)`: `heap.append(item); _siftdown(heap, 0, len(heap)-1)` -/
+def heappush (lt : α → α → Bool) (h : Array α) (x : α) : Array α :=
+  let h := h.push x
+  siftdown lt h 0 (h.size - 1) x h.size
+
+/-- `if rightpos < endpos and not heap[childpos] < heap[rightpos]: childpos = rightpos` -/
+def pickChild (lt : α → α → Bool) (h : Array α) (childpos : Nat) (hc : childpos < h.size) :
+    Fin h.size :=
+  if hr : childpos + 1 < h.size then
+    if lt h[childpos] h[childpos + 1] then ⟨childpos, hc⟩ else ⟨childpos + 1, hr⟩
+  else ⟨childpos, hc⟩
+
+/-- the loop of `_siftup(heap, pos)`: bubble the smaller child up until a leaf is hit
+    ```
+    childpos = 2*pos + 1
+    while childpos < endpos:
+        rightpos = childpos + 1
+        if rightpos < endpos and not heap[childpos] < heap[rightpos]: childpos = rightpos
+        heap[pos] = heap[childpos]; pos = childpos; childpos = 2*pos + 1
+    ``` -/
+def siftupLoop (lt : α → α → Bool) (h : Array α) (pos : Nat) : Nat → Array α × Nat
+  | 0 => (h, pos)
+  | fuel+1 =>
+    if hc : 2*pos + 1 < h.size then
+      let c := pickChild lt h (2*pos + 1) hc
+      siftupLoop lt (h.setIfInBounds pos h[c.val]) c.val fuel
+    else (h, pos)
+
+/-- `heappop(heap)`; `none` is Python's `IndexError` on the empty list.
+    ```
+    lastelt = heap.pop()
+    if heap:
+        returnitem = heap[0]; heap[0] = lastelt; _siftup(heap, 0); return returnitem
+    return lastelt
+    ```
+    where `_siftup(heap, 0)` is the loop above, then `heap[pos] = newitem; _siftdown(heap, 0, pos)`. -/
+def heappop (lt : α → α → Bool) (h : Array α) : Option (α × Array α) :=
+  if hs : h.size = 0 then none else
+  let lastelt := h[h.size - 1]
+  let h := h.pop
+  if hs' : h.size = 0 then some (lastelt, h) else
+  let ret := h[0]
+  let newitem := lastelt
+  let r := siftupLoop lt (h.setIfInBounds 0 newitem) 0 h.size
+  some (ret, siftdown lt (r.1.setIfInBounds r.2 newitem) 0 r.2 newitem h.size)
+
+/-! ### the two `Event.__lt__` on a minimal event record (finding F03) -/
 
 structure E where
   ts : Nat
@@ -15,43 +100,6 @@ def ltTs (a b : E) : Bool := a.ts < b.ts
 /-- repaired `Event.__lt__`: (timestamp, sequence) -/
 def ltKey (a b : E) : Bool := a.ts < b.ts || (a.ts == b.ts && a.id < b.id)
 
-/-- `_siftdown(heap, startpos, pos)` -/
-def siftdown (lt : E → E → Bool) (h : Array E) (startpos pos : Nat) (newitem : E) : Nat → Array E
-  | 0 => h.setIfInBounds pos newitem
-  | fuel+1 =>
-    if pos > startpos then
-      let parentpos := (pos - 1) / 2
-      let parent := h[parentpos]!
-      if lt newitem parent then siftdown lt (h.setIfInBounds pos parent) startpos parentpos newitem fuel
-      else h.setIfInBounds pos newitem
-    else h.setIfInBounds pos newitem
-
-def heappush (lt : E → E → Bool) (h : Array E) (x : E) : Array E :=
-  let h := h.push x
-  siftdown lt h 0 (h.size - 1) x h.size
-
-/-- the loop of `_siftup(heap, pos)`: bubble the smaller child up until a leaf is hit -/
-def siftupLoop (lt : E → E → Bool) (h : Array E) (pos : Nat) : Nat → Array E × Nat
-  | 0 => (h, pos)
-  | fuel+1 =>
-    let endpos := h.size
-    let childpos := 2*pos + 1
-    if childpos < endpos then
-      let rightpos := childpos + 1
-      let childpos := if rightpos < endpos && !(lt h[childpos]! h[rightpos]!) then rightpos else childpos
-      siftupLoop lt (h.setIfInBounds pos h[childpos]!) childpos fuel
-    else (h, pos)
-
-def heappop (lt : E → E → Bool) (h : Array E) : Option (E × Array E) :=
-  if h.size = 0 then none else
-  let lastelt := h[h.size - 1]!
-  let h := h.pop
-  if h.size = 0 then some (lastelt, h) else
-  let ret := h[0]!
-  let newitem := lastelt
-  let (h1, pos) := siftupLoop lt (h.setIfInBounds 0 newitem) 0 h.size
-  some (ret, siftdown lt (h1.setIfInBounds pos newitem) 0 pos newitem h.size)
-
 def drain (lt : E → E → Bool) (h : Array E) : Nat → List Nat
   | 0 => []
   | fuel+1 => match heappop lt h with
@@ -62,4 +110,66 @@ def drain (lt : E → E → Bool) (h : Array E) : Nat → List Nat
 def pushAll (lt : E → E → Bool) (n : Nat) : Array E :=
   (List.range n).foldl (fun h i => heappush lt h ⟨1, i⟩) #[]
 
+/-! ### the event loop of `event.py` on the real heap -/
+
+/-- repaired `Event.__lt__` on the events of `Queue.lean`: (timestamp, sequence) -/
+def keyLtb {K : Type} (a b : Ev K) : Bool := a.ts < b.ts || (a.ts == b.ts && a.seq < b.seq)
+
 end Heap
+
+/-- `EventLoop` with `_event_heap` the `heapq` array (compare `EL`, whose queue is the sorted list) -/
+structure HEL (K : Type) where
+  now : Int
+  heap : Array (Ev K)
+  nextSeq : Nat
+
+namespace HEL
+variable {K : Type}
+open Heap
+
+def empty : HEL K := { now := 0, heap := #[], nextSeq := 0 }
+
+/-- `EventLoop.schedule_event(timestamp, callback)` -/
+def schedule (l : HEL K) (ts : Int) (k : K) : Except ELErr (HEL K) :=
+  if ts < l.now then .error .past
+  else .ok { l with heap := heappush keyLtb l.heap ⟨ts, l.nextSeq, k⟩, nextSeq := l.nextSeq + 1 }
+
+/-- `EventLoop.pop_event()` -/
+def pop (l : HEL K) : Except ELErr (Ev K × HEL K) :=
+  match heappop keyLtb l.heap with
+  | none => .error .empty
+  | some (e, h') => .ok (e, { l with heap := h', now := e.ts })
+
+/-- `EventLoop.peek_event()`: `self._event_heap[0]` or `None` -/
+def peek (l : HEL K) : Option (Ev K) := l.heap[0]?
+
+/-- `EventLoop.clear()` -/
+def clear (l : HEL K) : HEL K := { l with heap := #[] }
+
+/-- `len(event_loop)` -/
+def len (l : HEL K) : Nat := l.heap.size
+
+/-- apply one API call (same conventions as `EL.apply`) -/
+def apply (l : HEL K) : ELOp K → HEL K × ELOut K
+  | .schedule ts k =>
+    match l.schedule ts k with
+    | .ok l' => (l', .ok)
+    | .error e => (l, .err e)
+  | .pop =>
+    match l.pop with
+    | .ok (e, l') => (l', .ev (some e))
+    | .error e => (l, .err e)
+  | .peek => (l, .ev l.peek)
+  | .clear => (l.clear, .ok)
+  | .len => (l, .num l.len)
+  | .now => (l, .num l.now)
+
+/-- a whole history; outputs in call order -/
+def run (l : HEL K) : List (ELOp K) → HEL K × List (ELOut K)
+  | [] => (l, [])
+  | op :: ops =>
+    let r := l.apply op
+    let rs := run r.1 ops
+    (rs.1, r.2 :: rs.2)
+
+end HEL
